@@ -17,7 +17,10 @@ def scan_constants():
         if b.endswith("_fwd.hh") or b.endswith("_test.cc"):
             continue
         s = open(f).read()
-        for name in re.findall(r"constexpr auto (\w+) = make_constant", s):
+        found = re.findall(r"constexpr auto (\w+)\s*=\s*make_constant", s)
+        if not found:
+            raise core.Inconclusive(f"constant table scan: no constant recognised in {b} (the scanner's patterns need updating)")
+        for name in found:
             out.append((name, "au/constants/" + b))
     return out
 
